@@ -533,8 +533,12 @@ def run(ctx):
             # --- edge A
             if mwrite != mem:
                 ctx.mismatch(case, f"members in the archive {str(mem)[:300]} differ from the model's {str(mwrite)[:300]}")
+            recorded_mtimes = {o[5] for o in inp if o[0] == "dir"}
             def norm_dirs(objs, known):
-                return [(o[:5] + [""] if o[0] == "dir" and o[1] not in known else o) for o in objs]
+                # a synthesised directory carries the time of the conversion ('' in the model): it is recognised by its location not
+                # being a member, or — when a recorded directory of that name was relocated away through a symlink and the name is
+                # synthesised again — by a time stamp that no recorded directory has
+                return [(o[:5] + [""] if o[0] == "dir" and (o[1] not in known or o[5] not in recorded_mtimes) else o) for o in objs]
             member_dirs = {posixpath.normpath("/" + m[1].strip("/")) for m in (mem or []) if m[0] == "dir"}
             if mread in ("raise", "symlink-loop"):
                 ctx.mismatch(case, f"the model raises ({mread}) on the archive, the code read it")
